@@ -65,7 +65,7 @@ def check(case, ctx):
             raise Violation("failure-vs-value", f"{where}: expected failure {sorted(r.fails)} but got {ev.value}")
         if ev.fail not in r.fails:
             raise Violation("failure-class", f"{where}: expected {sorted(r.fails)} but {ev.fail} ({ev.exc!r})")
-    reads = dict(r.reads)
+    reads = dict(r.caller_reads)
     labels = set()
     ks = run(build(spec).root.keys, o)
     if ks.ok:
@@ -78,7 +78,7 @@ def check(case, ctx):
     ex = run(build(spec).root.explain, o)
     if ex.ok:
         E = build(spec).root.explain(o)
-        need_e = set(r.tmpl_reads) | {k for k, present in reads.items() if present}
+        need_e = set(r.caller_tmpl_reads) | {k for k, present in reads.items() if present}
         if not need_e <= E:
             raise Violation("explain-miss-read", f"{where}: substitution read {sorted(need_e)} but explain() = {sorted(E)}")
     elif r.ok:
@@ -122,7 +122,14 @@ def cases(draw):
         # parameters read the caller's options directly (Options, possibly defaulted or chained), so
         # that "keys the substitution reads" is about the caller's dictionary
         s = g.tmpl_text(params=True)
-        node = {"k": "tmpl", "s": s, "params": {nm: g.opt(hashable=True) for nm in ("p0", "p1") if "{:%s:}" % nm in s}}
+        def param():
+            p = g.opt(hashable=True) if draw(st.booleans()) else {"k": "opt", "key": draw(st.sampled_from(U.FLAT + ["S.X"]))}
+            if draw(st.integers(0, 2)) == 0:
+                # a parameter evaluated under pinned options: what it reads there is not a read of the caller's dictionary
+                p = {"k": "with", "body": p, "opts": U.nest({draw(st.sampled_from(U.REF_ORDER[:-1])): draw(st.sampled_from(["pinned", 1, None]))}),
+                     "force": draw(st.booleans())}
+            return p
+        node = {"k": "tmpl", "s": s, "params": {nm: param() for nm in ("p0", "p1") if "{:%s:}" % nm in s}}
     elif kind == "opt":
         node = {"k": "opt", "key": draw(st.sampled_from(U.FLAT + ["S.X", "R.U.V"]))}
     elif kind == "section":
